@@ -188,11 +188,11 @@ Definition store_order_ok (m : mo) : bool := match m with Csm | Acq | AcqRel => 
 
 Definition call_orders_ok (c : opn * list mo) : bool :=
   match c with
-  | ((Load | Conv | Test), [m]) => load_order_ok m
+  | ((Load | Test), [m]) => load_order_ok m
   | ((Store | Clear), [m]) => store_order_ok m
   | ((Cew2 | Ces2), [s; f]) => load_order_ok f
   | ((Cew1 | Ces1), [m]) => true
   | ((Xchg | FAdd | FSub | FAnd | FOr | FXor | TAS), [m]) => true
-  | ((Assign | Load | Conv | AddA | SubA | PreInc | PostInc | PreDec | PostDec | AndA | OrA | XorA), []) => true
+  | ((Assign | Conv | AddA | SubA | PreInc | PostInc | PreDec | PostDec | AndA | OrA | XorA), []) => true
   | _ => false
   end.
